@@ -2,6 +2,7 @@ package path
 
 import (
 	"errors"
+	"fmt"
 )
 
 func build(source string, parsed any) PropertyPath {
@@ -54,7 +55,7 @@ func ParsePath(path string) (PropertyPath, error) {
 	}
 	parsed, err := Parse("", []byte(path))
 	if err != nil {
-		panic(err)
+		return nil, errors.New(fmt.Sprintf("invalid property path '%s': %s", path, err.Error()))
 	}
 
 	propertyPath := build(path, parsed)
